@@ -92,9 +92,9 @@ BSumFun(f, dom) ==   \* sum of f[x] for x in dom
   IF dom = {} THEN <<>>
   ELSE LET x == CHOOSE y \in dom : TRUE IN BAdd(f[x], BSumFun(f, dom \ {x}))
 
-\* 2^256 and 2^255 in limbs (computed once by TLC as constant-level definitions)
+\* 2^256 and 2^255 in limbs (literals: TLC re-evaluates definitions at every use; MC_BigNat checks them against Pow2)
 RECURSIVE Pow2(_)
 Pow2(n) == IF n = 0 THEN <<1>> ELSE BMulSmall(Pow2(n - 1), 2)
-Two256 == Pow2(256)
-Two255 == Pow2(255)
+Two256 == <<936, 639, 129, 913, 7, 584, 457, 39, 564, 640, 665, 984, 269, 853, 907, 687, 8, 985, 570, 423, 195, 316, 237, 89, 792, 115>>
+Two255 == <<968, 819, 564, 956, 3, 792, 728, 19, 282, 820, 332, 992, 634, 926, 953, 343, 504, 492, 785, 711, 97, 658, 618, 44, 896, 57>>
 =============================================================================
